@@ -464,6 +464,38 @@ def r4_document(rep, src):
         rep.ok('C17.R4', a.site, 'new Files paragraph goes after the last Files paragraph', '4 layouts')
 
 
+def r8_paragraphs_own_their_values(rep, src):
+    """a paragraph built from another mapping (Deb822(template), template.copy(): how documents are assembled from re-used parts)
+    holds its own entries.  Deb822Dict keeps a second, lazily read backing store for what a parser hands it (`_parsed`); the
+    constructor may adopt only that explicit argument as backing store -- never the initial mapping itself, or the new paragraph is a
+    view of the old one and every paragraph built from one template is written with the template's last values."""
+    m = src.mod('deb822')
+    f = m.funcs.get('Deb822Dict.__init__')
+    if f is None:
+        raise AnalysisError('deb822:Deb822Dict.__init__ not found')
+    rep.saw_func(f)
+    params = f.params()
+    if '_parsed' not in params:
+        raise AnalysisError('%s: no _parsed parameter' % f.site)
+    stores = [st for st in ast.walk(f.node) if isinstance(st, ast.Assign) and any(isinstance(t_, ast.Attribute) and norm(t_.value) == 'self' and 'parsed' in t_.attr for t_ in st.targets)]
+    if not stores:
+        raise AnalysisError('%s: the backing store for parsed input is not set in the constructor' % f.site)
+    # (a re-binding of the parameter to something built from another argument of the constructor; `_parsed = _parsed or {}` is none)
+    others = set(params) - {'_parsed', 'self'}
+    rebinds = [st for st in ast.walk(f.node) if isinstance(st, ast.Assign) and any(isinstance(t_, ast.Name) and t_.id == '_parsed' for t_ in st.targets)
+               and any(isinstance(n_, ast.Name) and n_.id in others for n_ in ast.walk(st.value))]
+    foreign = [st for st in stores if norm(st.value) not in ('_parsed', 'None')]
+    what = 'only the _parsed argument becomes the backing store'
+    if rebinds:
+        rep.fail('C17.R8', f.site, what, 'the parameter _parsed is re-bound in the constructor (line %d): a mapping given as initial content is adopted as backing store, so the new '
+                 'paragraph reads its values from the old one as long as they are not assigned -- paragraphs built from one template are all written with the template\'s '
+                 'current values' % rebinds[0].lineno, where='%s:%d' % (f.module.relpath, rebinds[0].lineno))
+    elif foreign:
+        rep.fail('C17.R8', f.site, what, '`%s` adopts something else than the _parsed argument as backing store' % norm(foreign[0])[:60], where='%s:%d' % (f.module.relpath, foreign[0].lineno))
+    else:
+        rep.ok('C17.R8', f.site, what, '%d store(s), all of the parameter itself' % len(stores))
+
+
 def r7_reader_requirements(rep, src):
     """what the paragraph classes demand of a parsed paragraph is what their creators guarantee: FilesParagraph.create() and
     LicenseParagraph.create() refuse None only, so a field written from the empty text is there with an empty value.  The
@@ -530,6 +562,7 @@ def check(src, rep, tier):
     rep.guard('C17.R4', r4_document, src)
     from . import common, C08
     rep.guard('C17.R6', C08.only_validated_stores, src, 'C17.R6')      # the wrapped paragraphs refuse un-encoded empty lines on every way in
+    rep.guard('C17.R8', r8_paragraphs_own_their_values, src)
     rep.need('C17.R7', 8)
     rep.guard('C17.R7', r7_reader_requirements, src)
     rep.need('C17.R5', 3)
